@@ -89,6 +89,8 @@ struct USock
 	std::int64_t t_posted = 0;
 	OpPtr rop;
 	int df_state = 0; // 0 untouched, 1 set, 2 cleared
+	std::int64_t sndbuf_bytes = 20000000; // send buffer in bytes (default: 200 ms at the NIC rate of 100 MB/s)
+	std::int64_t model_next_send = 0;     // reference model of the NIC: when the bytes accepted so far will have left
 };
 
 struct RxRec { int sock; std::uint64_t dgram; std::int64_t t; };
@@ -113,6 +115,7 @@ struct World
 	bool check_c20 = false;
 	std::uint64_t next_id = 1;
 	std::uint64_t tiny_seq = 0;
+	bool v6 = false;
 	std::unordered_map<std::uint64_t, std::vector<std::size_t>> index; // first min(8,len) bytes -> datagrams
 	std::map<std::pair<std::pair<std::uint64_t, std::uint64_t>, std::pair<int, int>>, std::uint64_t> last_delivered; // (src,dst,binding,sock) -> highest id delivered
 
@@ -161,7 +164,7 @@ struct World
 	bool open_bind(USock& u, std::uint16_t port)
 	{
 		error_code ec;
-		API(u.s->open(ip::udp::v4(), ec));
+		API(u.s->open(v6 ? ip::udp::v6() : ip::udp::v4(), ec));
 		u.open = true;
 		API(u.s->non_blocking(true, ec));
 		ip::udp::endpoint want(nodes[std::size_t(u.node)].a, port);
@@ -212,6 +215,11 @@ struct World
 		d.df = u.df_state == 1;
 		std::size_t const ev_before = log.ev.size();
 		error_code ec; std::size_t ret = 0;
+		// reference model of the send buffer: accepted bytes (payload + 28) leave at the documented NIC rate
+		// (sim::aux::nic_bandwidth); the buffer is full when more than send_buffer_size bytes are still waiting
+		std::int64_t const nic = sim::aux::nic_bandwidth;
+		std::int64_t const backlog_ns = std::max<std::int64_t>(0, u.model_next_send - now_ns());
+		std::int64_t const backlog_bytes = std::int64_t((__int128(backlog_ns) * nic) / 1000000000);
 		API(ret = u.s->send_to(bs, dst, 0, ec));
 		d.send_ec = ec.value(); d.send_ret = ret;
 		// implicit bind on first send
@@ -226,6 +234,19 @@ struct World
 			d.src_real = bindings[std::size_t(u.binding)].ep;
 			d.src_visible = ip::udp::endpoint(visible(u.node), d.src_real.port());
 			d.over_mtu = len > net.path_mtu(d.src_real.address(), dst.address());
+		}
+		if (len > 0 && len <= 65535 && !(u.df_state == 1 && len > net.path_mtu(nodes[std::size_t(u.node)].a, dst.address())))
+		{
+			// one maximum-size datagram of slack either way (rounding, the order of the library's own checks)
+			std::int64_t const slack = 70000;
+			bool const blocked = ec == boost::asio::error::would_block;
+			if (!blocked && !ec && backlog_bytes > u.sndbuf_bytes + slack)
+				R().violation("C08", "accepted-although-send-buffer-full", fmt("send_to of %d bytes accepted although about %" PRId64 " bytes are still waiting in a send buffer of %" PRId64 " bytes"
+					, len, backlog_bytes, u.sndbuf_bytes));
+			if (blocked && backlog_bytes + slack < u.sndbuf_bytes)
+				R().violation("C08", "would-block-although-send-buffer-has-room", fmt("send_to of %d bytes reported would_block although only about %" PRId64 " bytes are waiting in a send buffer of %" PRId64 " bytes"
+					, len, backlog_bytes, u.sndbuf_bytes));
+			if (blocked) R().count("would_block_checked_against_model");
 		}
 		// result rules
 		if (len == 0)
@@ -251,6 +272,8 @@ struct World
 		for (std::size_t i = ev_before; i < log.ev.size(); ++i)
 			if (log.ev[i].kind == EV_PASS && log.ev[i].probe == net.wire_probe[nodes[std::size_t(u.node)].a] && log.ev[i].size == len && log.ev[i].hash == d.hash)
 				d.on_wire = true;
+		if (d.on_wire)
+			u.model_next_send = std::max(u.model_next_send, now_ns()) + std::int64_t((__int128(len + 28) * 1000000000) / nic);
 		if (d.on_wire && !d.accepted)
 			R().violation("C08", "rejected-datagram-sent", fmt("send_to reported error %d for a %d byte datagram but it was put on the wire", ec.value(), len));
 		{
@@ -539,12 +562,13 @@ void check_fates(World& w)
 void gen_and_run(World& w, bool c20)
 {
 	Rng& rng = w.rng;
-	// nodes
+	// nodes (a quarter of the worlds are IPv6-only)
+	w.v6 = rng.coin(1, 4);
 	int const nn = 2 + rng.choose(3);
 	for (int i = 0; i < nn; ++i)
 	{
-		NodeSpec n; n.a = addr(fmt("10.2.%d.1", i + 1).c_str());
-		if (!c20 && rng.coin(1, 3)) { n.natted = true; n.ext = addr(rng.coin() ? "77.7.7.7" : fmt("77.7.%d.7", i + 1).c_str()); }
+		NodeSpec n; n.a = addr(w.v6 ? fmt("fd00:2::%d:1", i + 1).c_str() : fmt("10.2.%d.1", i + 1).c_str());
+		if (!c20 && !w.v6 && rng.coin(1, 3)) { n.natted = true; n.ext = addr(rng.coin() ? "77.7.7.7" : fmt("77.7.%d.7", i + 1).c_str()); }
 		w.nodes.push_back(n);
 	}
 	static std::vector<std::int64_t> const lats = {0, 1000, 1000000, 20000000, 200000000};
@@ -566,7 +590,7 @@ void gen_and_run(World& w, bool c20)
 		w.net.def_mtu = mtu;
 		if (rng.coin() && nn >= 2) w.net.set_mtu(w.nodes[0].a, w.nodes[1].a, int(rng.range(1, 3000)));
 	}
-	w.desc = fmt("%s %d nodes%s mtu=%d", c20 ? "C20" : "C08", nn, finite ? " finite-queues" : "", mtu);
+	w.desc = fmt("%s %d %s nodes%s mtu=%d", c20 ? "C20" : "C08", nn, w.v6 ? "IPv6" : "IPv4", finite ? " finite-queues" : "", mtu);
 	for (auto const& n : w.nodes) if (n.natted) w.desc += " nat(" + n.a.to_string() + "->" + n.ext.to_string() + ")";
 	R().cur_desc = w.desc;
 	w.build();
@@ -597,10 +621,10 @@ void gen_and_run(World& w, bool c20)
 	{
 		USock& u = w.add_sock(rng.choose(nn));
 		error_code ec;
-		API(u.s->open(ip::udp::v4(), ec)); u.open = true;
+		API(u.s->open(w.v6 ? ip::udp::v6() : ip::udp::v4(), ec)); u.open = true;
 		API(u.s->non_blocking(true, ec));
 		if (rng.coin()) { API(u.s->bind(ip::udp::endpoint(w.nodes[std::size_t(u.node)].a, 0), ec)); error_code e2; ip::udp::endpoint le; API(le = u.s->local_endpoint(e2)); w.ref_bind(u, le); }
-		if (rng.coin(1, 4)) { API(u.s->set_option(ip::udp::socket::send_buffer_size(int(rng.pick(std::vector<int>{1000, 20000, 200000}))), ec)); }
+		if (rng.coin(1, 3)) { int const sb = int(rng.pick(std::vector<int>{1000, 10000, 20000, 200000})); API(u.s->set_option(ip::udp::socket::send_buffer_size(sb), ec)); u.sndbuf_bytes = sb; }
 		int const dfc = rng.choose(c20 ? 5 : 8);
 		if (dfc == 0) { API(u.s->set_option(DfOption{IP_MTU_DISCOVER, IP_PMTUDISC_DO}, ec)); u.df_state = 1; }
 		else if (dfc == 1) { API(u.s->set_option(DfOption{IP_DONTFRAGMENT, 1}, ec)); u.df_state = 1; }
@@ -713,7 +737,7 @@ void gen_and_run(World& w, bool c20)
 		w.post_receive(u);
 		USock& s = w.add_sock(u.node == 0 ? 1 : 0);
 		error_code ec;
-		API(s.s->open(ip::udp::v4(), ec)); s.open = true; API(s.s->non_blocking(true, ec));
+		API(s.s->open(w.v6 ? ip::udp::v6() : ip::udp::v4(), ec)); s.open = true; API(s.s->non_blocking(true, ec));
 		ip::udp::endpoint dst = w.bindings[std::size_t(u.binding)].ep;
 		for (int k = 0; k < 8; ++k) w.send(s, dst, 600 + k, 1);
 		R().count("accounting_probe_bursts");
